@@ -48,6 +48,9 @@ pub struct RunReport {
     pub per_kind: BTreeMap<String, i64>,
     /// complete event log (ops, results, shim counters) for the determinism self-test
     pub event_log: Vec<String>,
+    /// iteration order of a fixed 8-key HashMap created on the run thread (proves that the
+    /// simulator, not the OS, chose this run's hash keys)
+    pub hash_order: u64,
 }
 
 #[derive(Clone, Debug)]
@@ -88,7 +91,7 @@ fn to_scope(s: &ScopeM) -> Scope {
 
 /// Behavioural comparison of a real layer environment with the model's: every scope, probe
 /// start environments with unset / empty / set values. Returns (differences, only_implicit).
-pub fn env_diff(real: &LayerEnv, model: &EnvModel, mix: u64) -> (Vec<String>, bool) {
+pub fn env_diff(real: &LayerEnv, model: &EnvModel, mix: u64, layer_abs: &[u8]) -> (Vec<String>, bool) {
     let mut names = model.names();
     for v in IMPLICIT_VARS {
         names.push(v.as_bytes().to_vec());
@@ -115,11 +118,21 @@ pub fn env_diff(real: &LayerEnv, model: &EnvModel, mix: u64) -> (Vec<String>, bo
                     if got.get(k) != want.get(k) {
                         let implicit_var = IMPLICIT_VARS.iter().any(|v| v.as_bytes() == k.as_slice());
                         let implicit_scope = matches!(scope, ScopeM::Build | ScopeM::Launch);
-                        // is the difference explained by the implicit entries alone?
-                        let explicit_want = model.explicit_only().apply(scope, start);
+                        // does the difference involve an implicit layer path entry? (value of an
+                        // implicit variable, in build/launch scope, naming <layer>/{bin,lib,…})
+                        let names_layer_path = |v: Option<&Vec<u8>>| {
+                            v.is_some_and(|v| {
+                                ["/bin", "/lib", "/include", "/pkgconfig"].iter().any(|suffix| {
+                                    let mut needle = layer_abs.to_vec();
+                                    needle.extend_from_slice(suffix.as_bytes());
+                                    !layer_abs.is_empty()
+                                        && v.windows(needle.len()).any(|w| w == needle.as_slice())
+                                })
+                            })
+                        };
                         let explained = implicit_var
                             && implicit_scope
-                            && (got.get(k) == explicit_want.get(k) || want.get(k) != explicit_want.get(k));
+                            && (names_layer_path(got.get(k)) || names_layer_path(want.get(k)));
                         if !explained {
                             only_implicit = false;
                         }
@@ -284,7 +297,7 @@ fn check_callbacks(
             }
         }
         if let (Some(real_env), Some(e)) = (&l.env, matching.iter().find_map(|e| e.env.as_ref())) {
-            let (d, _) = env_diff(real_env, e, mix);
+            let (d, _) = env_diff(real_env, e, mix, abs_layer.as_os_str().as_bytes());
             if !d.is_empty() {
                 return Some((
                     "I-callbacks".into(),
@@ -350,6 +363,14 @@ pub fn run_history(history: &History, cfg: &RunCfg, shim: &Shim) -> RunReport {
     };
     let mut shape: u64 = 0;
     let mut restored_seen = false;
+    {
+        let m: std::collections::HashMap<u32, ()> = (0..8).map(|k| (k, ())).collect();
+        let order: Vec<u32> = m.keys().copied().collect();
+        ctx.report.hash_order = order.iter().fold(0u64, |h, k| h * 8 + u64::from(*k));
+        if cfg.keep_event_log {
+            ctx.report.event_log.push(format!("hash-order {order:?}"));
+        }
+    }
 
     for (step, op) in history.ops.iter().enumerate() {
         if !model.enabled(op) {
@@ -385,11 +406,11 @@ pub fn run_history(history: &History, cfg: &RunCfg, shim: &Shim) -> RunReport {
             ctx.report.event_log.push(format!(
                 "{step} {} -> {} | cb={:?} | fs={} kinds={:?} | snap={:016x}",
                 op.kind_name(),
-                obs.tag(),
+                scrub(&obs.tag(), &cfg.root),
                 log.iter().map(|l| l.kind).collect::<Vec<_>>(),
                 st.matched,
                 st.per_kind.iter().filter(|(_, v)| *v > 0).collect::<Vec<_>>(),
-                snap_hash(&actual)
+                snap_hash(&actual, &cfg.root)
             ));
         }
         if matches!(op, Op::Restore { .. }) {
@@ -483,7 +504,7 @@ pub fn run_history(history: &History, cfg: &RunCfg, shim: &Shim) -> RunReport {
                 if got_meta != meta {
                     d.push(format!("returned metadata {got_meta:?}, on disk {meta:?}"));
                 }
-                let (ed, _) = env_diff(got_env, env, mix);
+                let (ed, _) = env_diff(got_env, env, mix, &model.abs(&model.ldir(l)));
                 if !ed.is_empty() {
                     d.push("returned environment differs from what is on disk".into());
                     d.extend(ed);
@@ -493,7 +514,7 @@ pub fn run_history(history: &History, cfg: &RunCfg, shim: &Shim) -> RunReport {
                 }
             }
             (ExpResult::EnvRead(want), Observed::EnvRead(got)) => {
-                let (d, only_implicit) = env_diff(got, want, mix);
+                let (d, only_implicit) = env_diff(got, want, mix, &model.abs(&model.ldir(layer.unwrap_or(0))));
                 if !d.is_empty() {
                     let p = if only_implicit { "C10" } else { "C03" };
                     let inv = if only_implicit { "I-implicit" } else { "I-envfiles" };
@@ -624,6 +645,7 @@ pub fn run_history(history: &History, cfg: &RunCfg, shim: &Shim) -> RunReport {
         }
 
         if let Some((properties, invariant, detail)) = viol {
+            let detail: Vec<String> = detail.iter().map(|l| scrub(l, &cfg.root)).collect();
             let mut sig_lines: Vec<String> = detail
                 .iter()
                 .filter(|l| l.starts_with("missing") || l.starts_with("unexpected") || l.starts_with("differs"))
@@ -636,7 +658,11 @@ pub fn run_history(history: &History, cfg: &RunCfg, shim: &Shim) -> RunReport {
                 // no tree difference: the shape is the (digit-free) first line of the detail
                 let first: String = detail
                     .first()
-                    .map(|l| l.chars().filter(|c| !c.is_ascii_digit()).take(110).collect())
+                    .map(|l| {
+                        // env differences: keep scope and variable, drop the values
+                        let l = l.split(": real ").next().unwrap_or(l);
+                        l.chars().filter(|c| !c.is_ascii_digit()).take(110).collect()
+                    })
                     .unwrap_or_default();
                 sig_lines.push(first);
             }
@@ -671,6 +697,11 @@ pub fn run_history(history: &History, cfg: &RunCfg, shim: &Shim) -> RunReport {
     ctx.report
 }
 
+/// Make a message independent of where the simulated world lives.
+fn scrub(s: &str, root: &Path) -> String {
+    s.replace(&root.display().to_string(), "$ROOT")
+}
+
 fn exp_tag(e: &ExpResult) -> String {
     match e {
         ExpResult::NoCall => "nocall".into(),
@@ -683,11 +714,11 @@ fn exp_tag(e: &ExpResult) -> String {
     }
 }
 
-pub fn snap_hash(s: &Snap) -> u64 {
+pub fn snap_hash(s: &Snap, root: &Path) -> u64 {
     let mut h: u64 = 0;
     for (k, v) in &s.nodes {
         h = splitmix64(h ^ crate::rng::hash_bytes(k));
-        h = splitmix64(h ^ hash_str(&v.describe()));
+        h = splitmix64(h ^ hash_str(&scrub(&v.describe(), root)));
         if let crate::snap::Node::File { data, .. } = v {
             h = splitmix64(h ^ crate::rng::hash_bytes(data));
         }
